@@ -66,6 +66,8 @@ pub enum OpKind {
     KillMark,
     /// a spawned tokio task becoming runnable (start order is the scheduler's choice)
     TaskStart,
+    /// `thread::sleep` / `tokio::time::sleep`: completes when scheduled and moves the clock on
+    Sleep,
 }
 
 #[derive(Clone, Copy, Debug, PartialEq, Eq)]
@@ -1734,4 +1736,22 @@ fn blake3_lite(b: &[u8]) -> [u64; 2] {
         h2 = (h2.rotate_left(5) ^ u64::from(*x)).wrapping_mul(0x9E37_79B9_7F4A_7C15);
     }
     [h1, h2]
+}
+
+
+/// Set when simulated code reaches an API the simulated world does not model (a real thread, a
+/// real timer, a shell construct the stand-in cannot run). A check that finds this set reports a
+/// harness error: whatever the run showed is not a verdict about the code.
+pub static UNSUPPORTED: std::sync::Mutex<Option<String>> = std::sync::Mutex::new(None);
+
+pub fn note_unsupported(what: &str) {
+    if let Ok(mut g) = UNSUPPORTED.lock() {
+        if g.is_none() {
+            *g = Some(what.to_string());
+        }
+    }
+}
+
+pub fn take_unsupported() -> Option<String> {
+    UNSUPPORTED.lock().ok().and_then(|mut g| g.take())
 }
